@@ -141,6 +141,17 @@ func (ex *Exec) verifyFunc(key string) error {
 				g := ex.evalClause(st2, fr, c, nil)
 				ob := ex.oblige(st2, "ensures", key+"/"+c.name(), c.Labels, g, c, ex.posOf(fr.retInstr))
 				ex.attachProbes(st2, fr, ob)
+				if ob != nil && c.Expr.Op == "bin" && c.Expr.Name == "==>" {
+					// cover candidate: the antecedent must be satisfiable on some path, else the clause is vacuous
+					ev := &evalCtx{ex: ex, st: st2, fr: fr}
+					av := ev.eval(c.Expr.Args[0])
+					if len(ev.err) == 0 && av.S == "Bool" && av.T != "false" {
+						cv := ex.obligeRaw(st2, "cover", key+"/"+c.name()+fmt.Sprintf("@%d", c.Line), c.Labels, av.T)
+						cv.Clause = c
+					} else {
+						ex.coverSeen[key+"/"+c.name()+fmt.Sprintf("@%d", c.Line)] = ex.coverSeen[key+"/"+c.name()+fmt.Sprintf("@%d", c.Line)] || false
+					}
+				}
 			}
 			for _, l := range sp.Holds {
 				found := false
@@ -357,11 +368,14 @@ func cmdCheck(args []string) int {
 	if *tier == "thorough" {
 		cfg.T1, cfg.T2 = 30*time.Second, 90*time.Second
 	}
-	var real, canaries []*Obligation
+	var real, canaries, covers []*Obligation
 	for _, ob := range ex.obls {
-		if ob.Kind == "canary" {
+		switch ob.Kind {
+		case "canary":
 			canaries = append(canaries, ob)
-		} else {
+		case "cover":
+			covers = append(covers, ob)
+		default:
 			real = append(real, ob)
 		}
 	}
@@ -411,6 +425,11 @@ func cmdCheck(args []string) int {
 		}
 	}
 	sort.Strings(vacuous)
+	// clause covers: every implication-shaped postcondition needs a path on which its antecedent can hold
+	uncovered := ex.checkCovers(covers, ccfg)
+	for _, u := range uncovered {
+		vacuous = append(vacuous, "clause "+u)
+	}
 
 	// aggregate
 	aggs := map[string]*obAgg{}
@@ -991,4 +1010,50 @@ func frameCounter(c string) bool {
 		}
 	}
 	return false
+}
+
+// checkCovers: for each implication-shaped ensures clause, some return path must make the
+// antecedent satisfiable; otherwise the clause constrains nothing (vacuous contract).
+func (ex *Exec) checkCovers(covers []*Obligation, cfg SolveCfg) []string {
+	by := map[string][]*Obligation{}
+	var names []string
+	for _, c := range covers {
+		if _, ok := by[c.Name]; !ok {
+			names = append(names, c.Name)
+		}
+		by[c.Name] = append(by[c.Name], c)
+	}
+	sort.Strings(names)
+	type res struct {
+		name    string
+		covered bool
+	}
+	ch := make(chan res, len(names))
+	sem := make(chan struct{}, 8)
+	for _, n := range names {
+		go func(n string) {
+			sem <- struct{}{}
+			defer func() { <-sem }()
+			covered := false
+			for i, c := range by[n] {
+				if i >= 24 {
+					covered = true // too many paths to enumerate cheaply: not judged
+					break
+				}
+				if ex.coverSat(c, cfg) != "unsat" {
+					covered = true
+					break
+				}
+			}
+			ch <- res{n, covered}
+		}(n)
+	}
+	var out []string
+	for range names {
+		if r := <-ch; !r.covered {
+			out = append(out, r.name)
+		}
+	}
+	sort.Strings(out)
+	return out
 }
